@@ -73,6 +73,7 @@ structure SelLog where
   cSel : UInt8
   nSel : UInt8
   log : List (Call F32)
+deriving DecidableEq
 
 instance : Inhabited SelLog := ⟨⟨0, 0, []⟩⟩
 
@@ -540,5 +541,19 @@ theorem setEllipticalGradient_model_tie (fuel : Nat) (s : SelLog) (cx cy rx ry s
       = gradResOf upd s (Gen.setGradient s.cSel s.nSel 1 spread (modelStops X stops)
           (Gen.ellipticalMatrix cx cy rx ry sx sy)) := by
   rw [setEllipticalGradient_code_tie, setGradient_code_tie _ X fuel s _ spread stops _ hf, aff3Of_aff3Vec]
+
+/-! concrete instances: two stops on a fresh object (3 + 6 + 2·2 + 2 = 15 calls, selectors restored on the register
+    object); CSEL = 10 collides with the first stop register -/
+example : (generate_Generator_SetGradient (selOps regUpd) (fun _ => (0xffff, 0, 0, 0xffff)) 10 ⟨3, 5, []⟩ 0 0
+      [⟨⟨0⟩, Go.ref "a"⟩, ⟨⟨0x3f800000⟩, Go.ref "b"⟩] (aff3Vec (Gen.linearMatrix ⟨0⟩ ⟨0⟩ ⟨0x3f800000⟩ ⟨0⟩))).1 = none ∧
+    (generate_Generator_SetGradient (selOps regUpd) (fun _ => (0xffff, 0, 0, 0xffff)) 10 ⟨3, 5, []⟩ 0 0
+      [⟨⟨0⟩, Go.ref "a"⟩, ⟨⟨0x3f800000⟩, Go.ref "b"⟩] (aff3Vec (Gen.linearMatrix ⟨0⟩ ⟨0⟩ ⟨0x3f800000⟩ ⟨0⟩))).2.log.length = 15 ∧
+    (generate_Generator_SetGradient (selOps regUpd) (fun _ => (0xffff, 0, 0, 0xffff)) 10 ⟨3, 5, []⟩ 0 0
+      [⟨⟨0⟩, Go.ref "a"⟩, ⟨⟨0x3f800000⟩, Go.ref "b"⟩] (aff3Vec (Gen.linearMatrix ⟨0⟩ ⟨0⟩ ⟨0x3f800000⟩ ⟨0⟩))).2.cSel = 3 := by
+  decide +kernel
+example : generate_Generator_SetGradient (selOps regUpd) (fun _ => (0xffff, 0, 0, 0xffff)) 10 ⟨10, 5, []⟩ 0 0
+      [⟨⟨0⟩, Go.ref "a"⟩] (Vector.replicate 6 ⟨0⟩)
+    = (some "ivg: CSEL used as both gradient and stop", ⟨10, 5, []⟩) := by
+  decide +kernel
 
 end Ivg.Gen.Tie
